@@ -115,7 +115,11 @@ Qed.
 Print Assumptions C05_model_decrypt_encrypt.
 
 (* ---- 5. the result does not depend on what the object processed before -------------------------------- *)
-(* any history of Encrypt / Decrypt calls on one object: each result is the specification's *)
+(* any history of Encrypt / Decrypt calls on one object: each result is the specification's.
+   NOTE (audit B-sm4b): given C05_encrypt/decrypt_model_is_spec this is close to definitional - the model's
+   Encrypt/Decrypt return the object unchanged, because in sm4.go they write no field of Sm4Cipher (the scratch
+   is per call: "var b [4]uint32; var r [BlockSize]byte").  That "no field is written" is a modelling claim, tied
+   by the H and N differential cases (histories on one object) and shown to matter by seeded C05-2 / C05-5. *)
 Theorem C05_stateless : forall key (ops : list (bool * list N)),
   length key = 16%nat -> bytes_ok key = true ->
   Forall (fun op => length (snd op) = 16%nat /\ bytes_ok (snd op) = true) ops ->
@@ -138,6 +142,9 @@ Qed.
 Print Assumptions C05_scratch_irrelevant.
 
 (* ---- 6. dst and src inside one memory, overlapping in any way (dst == src included) -------------------- *)
+(* NOTE (audit B-sm4b): crypt_mem reads all of src before it writes dst BY CONSTRUCTION (as cryptBlock does:
+   permuteInitialBlock first, copy(dst, r) last); the theorem's content is the value and the frame (bytes outside
+   dst unchanged).  The read-before-write order itself is a modelling claim tied by the A differential cases. *)
 Theorem C05_alias_safe : forall key mem doff soff d,
   length key = 16%nat -> bytes_ok key = true -> bytes_ok mem = true ->
   (soff + 16 <= length mem)%nat -> (doff + 16 <= length mem)%nat ->
